@@ -421,3 +421,57 @@ Proof.
   - replace (3 * PI) with (PI + 2 * IZR 1 * PI) by lra. rewrite wrap_shift. exact wrap_PI.
   - rewrite wrap_shift. apply wrap_id. unfold in_range. lra.
 Qed.
+
+(* ------------------------------------------------ matrix-level statements for the general branch *)
+
+Definition row_nonzero (w row : list R) : Prop := wsumf cos row w <> 0 \/ wsumf sin row w <> 0.
+
+Lemma mean_rotation_matrix cols a w d : cols <> 1%nat -> Forall (row_nonzero w) a ->
+  Forall2 cong2pi (map (fun m => m + d) (dir_mean ROps cols a w))
+                  (dir_mean ROps cols (map (map (fun x => x + d)) a) w).
+Proof.
+  intros Hc H. rewrite !mean_general by assumption.
+  induction H as [|row a Hr Ha IH]; simpl; constructor; [now apply mean_row_rotation | exact IH].
+Qed.
+
+Definition arc_ok (cols : nat) (row : list R) (lh : R * R) : Prop :=
+  length row = cols /\ row <> [] /\ Forall (fun x => fst lh <= x <= snd lh) row /\ snd lh - fst lh < PI.
+
+Lemma mean_in_arc_matrix cols a w arcs : cols <> 1%nat -> length w = cols ->
+  Forall (fun x => 0 < x) w -> Forall2 (arc_ok cols) a arcs ->
+  Forall2 (fun m lh => exists k : Z, fst lh <= m + 2 * IZR k * PI <= snd lh) (dir_mean ROps cols a w) arcs.
+Proof.
+  intros Hc Hw Hpos H. rewrite mean_general by assumption.
+  induction H as [|row lh a arcs [Hl [Hne [Hin Harc]]] Ha IH]; simpl; constructor; [|exact IH].
+  apply mean_row_in_arc; try assumption. congruence.
+Qed.
+
+(* ------------------------------------------------ the one-column branch against the literal clauses *)
+
+Lemma not_cong_half_turn : ~ cong2pi PI 0.
+Proof.
+  intros [k Hk]. pose proof PI_RGT_0.
+  assert (E : IZR (2 * k + 1) = 0) by (rewrite plus_IZR, mult_IZR; simpl; nra).
+  apply eq_IZR in E. lia.
+Qed.
+
+(* (i) not the argument of the resultant (not even for a positive weight), (ii) follows 2 pi shifts,
+   (iii) ignores the weight: a negative weight turns the resultant by a half turn, the result does not move *)
+Lemma single_column_literal_refuted :
+  (exists a w, 0 < w /\ dir_mean ROps 1 [[a]] [w] <> [mean_row ROps [a] [w]]) /\
+  (exists a w, 0 < w /\ dir_mean ROps 1 [[a + 2 * IZR 1 * PI]] [w] <> dir_mean ROps 1 [[a]] [w]) /\
+  (exists a w, w < 0 /\ ~ cong2pi (mean_row ROps [a] [w]) (nth 0 (dir_mean ROps 1 [[a]] [w]) 0)).
+Proof.
+  pose proof PI_RGT_0 as Hp. repeat split.
+  - exists (3 * PI), 1. split; [lra|]. rewrite mean_single_column. cbn [map nth].
+    assert (E0 : mean_row ROps [3 * PI] [1] = wrap ROps (3 * PI)).
+    { apply (mean_row_all_equal (3 * PI) 1 [1]). simpl. lra. }
+    destruct wrap_concrete as [E _]. intros H. injection H as H'. pose proof (eq_trans H' (eq_trans E0 E)) as H2. lra.
+  - exists 0, 1. split; [lra|]. rewrite !mean_single_column. cbn [map nth]. intros H. injection H. lra.
+  - exists 0, (-1). split; [lra|]. rewrite mean_single_column, mean_row_R. cbn [map nth wsumf].
+    rewrite sin_0, cos_0. replace (0 * -1 + 0) with 0 by ring. replace (1 * -1 + 0) with (-1) by ring.
+    assert (E : atan2 0 (-1) = PI).
+    { unfold atan2. destruct (total_order_T (-1) 0) as [[H|H]|H]; try lra.
+      destruct (Rle_dec 0 0); [|lra]. replace (0 / -1) with 0 by (field; lra). rewrite atan_0. lra. }
+    rewrite E. apply not_cong_half_turn.
+Qed.
